@@ -37,6 +37,7 @@ type SpecEnv struct {
 	depth  int
 	bound  map[string]bool
 	inOld  bool
+	prevSt *State // state at the head of the current loop iteration (for prev(e) in atback clauses)
 	qcount *int
 	cbElem types.Type
 }
@@ -48,7 +49,7 @@ func (e specErr) Error() string { return "specification error: " + e.msg }
 func sfail(f string, a ...interface{}) { panic(specErr{fmt.Sprintf(f, a...)}) }
 
 func (ex *Exec) envFor(fr *Frame, st *State) *SpecEnv {
-	env := &SpecEnv{ex: ex, fr: fr, st: st, old: fr.entry, vars: map[string]Value{}, pkg: fnPkg(fr.fn)}
+	env := &SpecEnv{ex: ex, fr: fr, st: st, old: fr.entry, prevSt: fr.prevSt, vars: map[string]Value{}, pkg: fnPkg(fr.fn)}
 	for k, v := range fr.params {
 		env.vars[k] = v
 	}
@@ -426,6 +427,20 @@ func (env *SpecEnv) ident(name string, hint types.Type) Value {
 			return Term{S: cur, T: &SetType{Elem: it.mc.kt}}
 		}
 	}
+	// captured variable of a function literal verified as a unit
+	if env.fr != nil && env.fr.fn != nil {
+		for _, fv := range env.fr.fn.FreeVars {
+			if fv.Name() == name {
+				src := env.st
+				if env.inOld && env.old != nil {
+					src = env.old
+				}
+				if v, ok := src.free[fv]; ok {
+					return v
+				}
+			}
+		}
+	}
 	// local variable of the frame
 	if env.fr != nil && !env.inOld {
 		if a := env.fr.localByName(name); a != nil {
@@ -686,6 +701,12 @@ func (env *SpecEnv) binary(x EBin, hint types.Type) Value {
 		if _, ok := a.T.(*SetType); ok {
 			r = sx("=", a.S, b.S)
 		} else {
+			// Go's mixed comparison of an interface value with a concrete one: the concrete side is boxed
+			if isInterface(a.T) && !isInterface(b.T) {
+				b = env.boxTo(b, a.T)
+			} else if isInterface(b.T) && !isInterface(a.T) {
+				a = env.boxTo(a, b.T)
+			}
 			if env.tc().sortOf(a.T) != env.tc().sortOf(b.T) {
 				sfail("comparison of %s and %s in %s", a.T, b.T, exprString(x))
 			}
